@@ -120,6 +120,8 @@ def cq_stmt3(st):
         return "SAdd"
     if 12 <= st[1] <= 15:
         return "SReadAs %d" % (st[1] - 12)
+    if st[1] in (16, 17):      # the database name written in upper / mixed case: the same read as 12 / 13
+        return "SReadAs %d" % (st[1] - 16)
     return "SBase (%s)" % G.cq_stmt(st)
 
 
